@@ -191,7 +191,7 @@ def subscript(ex, st: State, obj: V, sl, node) -> V:
         else:
             ex.oblige(st, 'safe:key', '', present, node)
         v = st.dict_get(obj, key)
-        st.assume_type(v)
+        st.assume_type(v, guard=present)     # in a specification nothing obliges the key to be present
         return v
     if isinstance(sl, ast.Slice):
         lo = ex.ev(st, sl.lower) if sl.lower is not None else None
@@ -233,7 +233,7 @@ def subscript(ex, st: State, obj: V, sl, node) -> V:
         if not st.is_nonneg(i):
             i = z3.If(i < 0, i + n, i)
         v = V(z3.Select(arr, z3.simplify(i)), ety)
-        st.assume_type(v)
+        st.assume_type(v, guard=z3.And(i >= 0, i < n))     # only positions of the sequence are typed
         return v
     if k == 'list':
         if obj.items is not None and idx.lit is not None and isinstance(idx.lit, int):
@@ -261,7 +261,9 @@ def subscript(ex, st: State, obj: V, sl, node) -> V:
         else:
             ex.oblige(st, 'safe:index', '', inb, node)
         v = st.list_get(obj, i)
-        st.assume_type(v)
+        # only positions of the list are typed: a fresh list reads `none` beyond its length, and inside a specification
+        # nothing obliges the index to be in range (an unguarded type fact would make the state inconsistent)
+        st.assume_type(v, guard=inb)
         return v
     if k == 'tuple':
         if obj.items is not None and idx.lit is not None:
@@ -1532,8 +1534,9 @@ def list_method(ex, st, lst: V, name, args, kwargs, node):
         else:
             ex.oblige(st, 'safe:index', 'list.index', present, node)
         i = fresh_int('idx')
-        st.assume(z3.And(i >= 0, i < n, z3.Select(arr, i) == x))
-        st.assume(z3.ForAll([j], z3.Implies(z3.And(j >= 0, j < i), z3.Select(arr, j) != x)))
+        # guarded by presence: inside a specification nothing obliges x to occur in the list
+        st.assume(z3.Implies(present, z3.And(i >= 0, i < n, z3.Select(arr, i) == x)))
+        st.assume(z3.Implies(present, z3.ForAll([j], z3.Implies(z3.And(j >= 0, j < i), z3.Select(arr, j) != x))))
         return v_int(i)
     if name == 'copy':
         n, arr, ety = seq_parts(ex, st, lst)
